@@ -63,6 +63,16 @@ def gen_case(rng, tier):
                 nxt = g.unary(state, op)
                 if nxt and nxt[1]:
                     state = nxt
+        with_calc = g.unary(state, "calc") if rng.random() < 0.25 else None
+        if with_calc is not None:
+            # a chain with a doomed branch directly under the materialization (the Processor prunes
+            # it); the surviving branch ends in a calculation so that it is a genuinely unevaluated
+            # pipeline and not just the leaf's own (already materialized) payload
+            state = with_calc
+            dprog, _, _ = g.leaf(eng, want_cols=sorted(state[1]), allow_special=False)
+            dname = dprog[1]
+            g.leaves[dname] = {"engine": eng, "cols": sorted(state[1]), "rows": [], "kind": "doomed"}
+            state = ((["chain", dprog, state[0]] if rng.random() < 0.5 else ["chain", state[0], dprog]), state[1], state[2])
         cores.append({"prog": ["mat", state[0], f"CORE{i}"], "cols": sorted(state[1]), "engine": eng, "leaf": leaf_name})
     return {"leaves": g.leaves, "cores": cores, "seed": rng.randint(0, 10**9), "steps": rng.randint(20, 45) if tier == "quick" else rng.randint(45, 120)}
 
